@@ -256,6 +256,26 @@ def run(ctx):
         ctx.check(len(cl_calls) == 1 and len(sv_calls) == 1 and f.only_through(cl_calls[0], gC) and not f.only_through(sv_calls[0], gC), R6,
                   'dual::%s:dispatch-on-cookie-type' % name, 'client/server dispatch does not follow the cookie type', f.where)
 
+    # delegating implementations hand their parameters on in the same roles (isnew stays isnew, on_server stays on_server)
+    nd = 0
+    for f in sorted([g for g in P.fns.values() if g.brecord in (D, SID) and g.kind == 'method'], key=lambda g: g.id):
+        for (i, j, k, nm) in q.delegation_swaps(P, f):
+            nd += 1
+            ctx.check(j == k, R6, '%s:forwards:%s#%d' % (q.fkey(f), nm, nd), 'parameter %s (position %d) is forwarded in position %d of %s: roles swapped' % (nm, k, j, f.callee(i)), f.loc(i))
+    ctx.require(nd >= 6 or ctx.violations, 'C06.R6: only %d forwarded parameters found in session_dual / session_sid' % nd)
+
+    # ---------------- R9 change detection sees every field of an entry
+    R9 = ctx.rule('C06.R9', 'session_interface::save decides "nothing changed" by comparing whole entries: entry::operator== implies equality of every field (value and exposed flag)')
+    eqs = [f for f in P.fns.values() if f.short == 'operator==' and (f.brecord or '').endswith('session_interface::entry')]
+    ctx.require(len(eqs) == 1, 'C06.R9: session_interface::entry::operator== not found')
+    miss = q.memberwise_eq_missing(P, eqs[0])
+    ctx.require(miss is not None, 'C06.R9: shape of entry::operator== not understood')
+    ctx.check(not miss, R9, 'entry::operator==:covers-every-field', 'entries that differ in %s compare equal: save() skips storing / updating cookies for such a change' % miss, eqs[0].where)
+    svi = P.fn('cppcms::session_interface::save')
+    cmpd = [i for i in svi.calls() if svi.N(i)['k'] == 'CXXOperatorCallExpr' and svi.N(i).get('op') in ('==', '!=') and
+            {'data_', 'data_copy_'} <= set(r.rsplit('::', 1)[-1] for r in svi.subtree_refs(i))]
+    ctx.check(len(cmpd) == 1, R9, 'session_interface::save:unchanged-test-compares-data-with-copy', 'the early exit of save() does not compare data_ with data_copy_', svi.where)
+
     # ---------------- R7 in-memory storage index agreement
     msv = P.fn(MS + '::save')
     to = q.param_by_index(msv, 1)
@@ -352,6 +372,7 @@ def run(ctx):
     ctx.floor(R6, 4)
     ctx.floor(R7, 10)
     ctx.floor(R8, 35)
+    ctx.floor(R9, 2)
 
 
 def lin_sym(f):
